@@ -58,7 +58,8 @@ class Q:
                  unwind=None, unwindset=None, flags=(), remove_bodies=(), export_local=False,
                  includes=(), timeout=900, mem_gb=12, threads=False, kf=None, ub_scope=(),
                  no_mem=False, note="", funcs=(), bounds=None, malloc_may_fail=False, tiers=None,
-                 object_bits=None, solver=None, unwind_assert=True, kf_match=None):
+                 object_bits=None, solver=None, unwind_assert=True, kf_match=None, hdefs=()):
+        self.hdefs = list(hdefs)        # -D for harness + models only (keeps the unit objects cacheable across queries)
         self.kf_match = kf_match      # regex: failing CBMC properties that ARE the known finding
         self.name = name
         self.harness = harness          # path relative to /verif
@@ -154,12 +155,28 @@ class Builder:
         self.scratch = scratch
         self.defines, self.incs, self.flag_src = repo_flags()
         self.cache = {}
+        self.locks = {}
+        self.glock = threading.Lock()
+        self.counter = 0
+
+    def _keylock(self, key):
+        with self.glock:
+            if key not in self.locks:
+                self.locks[key] = threading.Lock()
+            return self.locks[key]
 
     def _cc(self, src, extra, tag, export_local=False):
         key = (src, tuple(extra), export_local)
+        with self._keylock(key):
+            return self._cc_locked(key, src, extra, tag, export_local)
+
+    def _cc_locked(self, key, src, extra, tag, export_local):
         if key in self.cache:
             return self.cache[key]
-        out = os.path.join(self.scratch, "o_%d_%s.gb" % (len(self.cache), re.sub(r"\W", "_", os.path.basename(src))))
+        with self.glock:
+            self.counter += 1
+            n = self.counter
+        out = os.path.join(self.scratch, "o_%d_%s.gb" % (n, re.sub(r"\W", "_", os.path.basename(src))))
         cmd = ["goto-cc", "-c", "-o", out, src] + self.defines + self.incs + \
               ["-I" + os.path.join(VERIF, "models"), "-I" + os.path.join(VERIF, "harness")] + list(extra)
         if export_local:
@@ -181,10 +198,14 @@ class Builder:
             # bodies are removed from the unit objects (before linking) so that the harness / a model can
             # supply the replacement definition under the same (file-local-exported) symbol name
             key = ("rm", tuple(uobjs), tuple(q.remove_bodies))
-            if key not in self.cache:
+            with self._keylock(key):
+              if key not in self.cache:
                 stripped = []
+                with self.glock:
+                    self.counter += 1
+                    n = self.counter
                 for o in uobjs:
-                    so = o[:-3] + "_rm%d.gb" % len(self.cache)
+                    so = o[:-3] + "_rm%d.gb" % n
                     shutil.copy(o, so)
                     for fn in q.remove_bodies:
                         rc, out, _ = run(["goto-instrument", "--remove-function-body", fn, so, so], timeout=300)
@@ -194,9 +215,10 @@ class Builder:
                 self.cache[key] = stripped
             uobjs = self.cache[key]
         objs += uobjs
+        hd = defs + ["-D" + d if not d.startswith("-") else d for d in q.hdefs]
         for m in q.models:
-            objs.append(self._cc(os.path.join(VERIF, m), defs, "m"))
-        objs.append(self._cc(os.path.join(VERIF, q.harness), defs, "h"))
+            objs.append(self._cc(os.path.join(VERIF, m), hd, "m"))
+        objs.append(self._cc(os.path.join(VERIF, q.harness), hd, "h"))
         out = os.path.join(self.scratch, "q%d.gb" % idx)
         cmd = ["goto-cc", "-o", out] + objs
         rc, o, _ = run(cmd, timeout=300)
@@ -224,6 +246,8 @@ def cbmc_cmd(q, gb, extra=()):
         cmd += ["--unwindset", ",".join("%s:%d" % kv for kv in q.unwindset.items())]
     if q.unwind_assert:
         cmd += ["--unwinding-assertions"]
+    elif "--no-unwinding-assertions" not in q.flags:
+        cmd += ["--no-unwinding-assertions"]
     if not q.malloc_may_fail:
         cmd += ["--no-malloc-may-fail"]
     if q.threads:
@@ -358,8 +382,7 @@ def run_query(builder, q, idx, prop_id, replay_dir):
     res = Result(q)
     t0 = time.time()
     try:
-        with _BUILD_LOCK:
-            gb = builder.build(q, idx)
+        gb = builder.build(q, idx)
     except Exception as e:
         res.status = "error"
         res.log = str(e)
@@ -450,8 +473,11 @@ def check_property(prop_id, tier, queries, meta):
         if q.kf:
             f = findings.get(q.kf)
             if f is None or f.get("status") != "open":
-                # a demonstration query whose finding is not open: behaves like a normal query
-                pass
+                # a demonstration query whose finding is not open (fixed): behaves like a normal query,
+                # i.e. if the recorded failure comes back it is reported as a violation again
+                if r.kf_hit and r.status != "violation":
+                    r.status = "violation"
+                    r.bad = list(r.kf_hit)
             else:
                 if r.bad:
                     pass  # other assertions failed: handled below as violation
